@@ -20,8 +20,13 @@ def WfType (t : PathType) : Prop :=
   | .bspline => (match t.degree with | none => True | some d => 0 < d ∧ d ≤ i32Max)
   | _ => t.degree = none
 
-instance (t : PathType) : Decidable (WfType t) := by
-  unfold WfType; cases t.kind <;> simp only <;> (try cases t.degree) <;> infer_instance
+instance (t : PathType) : Decidable (WfType t) :=
+  match t with
+  | ⟨.bspline, none⟩ => isTrue trivial
+  | ⟨.bspline, some d⟩ => inferInstanceAs (Decidable (0 < d ∧ d ≤ i32Max))
+  | ⟨.catmull, d⟩ => inferInstanceAs (Decidable (d = none))
+  | ⟨.linear, d⟩ => inferInstanceAs (Decidable (d = none))
+  | ⟨.perfectCurve, d⟩ => inferInstanceAs (Decidable (d = none))
 
 /-- a control point (other than the first) the path string carries: the absolute coordinates `pos + p` are
 representable, within ±131072 and integral, and subtracting the object's position gives the relative coordinates back
